@@ -199,7 +199,7 @@ func (w *World) checkJsonScheduling(P string, pull *ssa.Function, scope *pullSco
 				}
 			}
 		}
-		w.check(P, "R16.4", "closing "+d+": member end scheduled after the pop", ifi.Pos(), ok, fmt.Sprintf("pops, then sets the pending-end flag iff the enclosing state has its %q flag set: %v", keyField, ok))
+		w.check(P, "R16.4", "closing "+d+": member end scheduled after the pop", ifPos(ifi), ok, fmt.Sprintf("pops, then sets the pending-end flag iff the enclosing state has its %q flag set: %v", keyField, ok))
 	}
 	for _, d := range []string{"{", "["} {
 		ifi := arms[d]
@@ -227,7 +227,7 @@ func (w *World) checkJsonScheduling(P string, pull *ssa.Function, scope *pullSco
 				}
 			}
 		}
-		w.check(P, "R16.4", "opening "+d+": enclosing member marked before the push", ifi.Pos(), ok, fmt.Sprintf("inside an object the enclosing state's %q flag is set before the new state is pushed: %v (otherwise the member element is never closed after its container value)", keyField, ok))
+		w.check(P, "R16.4", "opening "+d+": enclosing member marked before the push", ifPos(ifi), ok, fmt.Sprintf("inside an object the enclosing state's %q flag is set before the new state is pushed: %v (otherwise the member element is never closed after its container value)", keyField, ok))
 	}
 	// (d) scalar in object state
 	keyOK, valOK := false, false
